@@ -1018,7 +1018,7 @@ func c03R2(c *Ctx) {
 	}
 	c.Check(R, "~.ExtendedCopyGraph|dispatches-found-roots", goCall.Pos(), rootsOK,
 		ifelse(rootsOK, "the items dispatched are the roots returned by the DFS", "the items handed to syncutil.Go are not the root finder's result"))
-	perRoot, _ := c01FuncOfValue(goCall.Common().Args[2])
+	perRoot, perRootRecv := c01FuncOfValue(goCall.Common().Args[2])
 	if perRoot == nil || len(perRoot.Blocks) == 0 {
 		c.Undecided(R, "~.ExtendedCopyGraph|per-root-closure", goCall.Pos(), "the function handed to syncutil.Go is not a closure, method value or function of the module")
 		return
@@ -1060,6 +1060,35 @@ func c03R2(c *Ctx) {
 		return nil, nil
 	}
 	cg, cgArgs := find(perRoot, map[*ssa.Parameter]ssa.Value{}, 0)
+	if cg == nil && perRootRecv != nil {
+		// the per-root function is a method of the state struct that also carries the traversal: it dispatches the
+		// traversal itself; proxy, limiter and tracker are that one struct's fields — shared iff the struct is created once
+		dispatches := false
+		for _, t := range c01Traversals(c.P) {
+			for f := range c01ReachableFns(perRoot, 2) {
+				if len(c01DispatchCalls(f, t.Entry)) > 0 {
+					dispatches = true
+				}
+			}
+		}
+		once := false
+		rs := Roots(perRootRecv)
+		if len(rs) == 1 {
+			switch u := rs[0].(type) {
+			case *ssa.Call:
+				once = chain[u.Parent()] && !Reachable(u, u)
+			case *ssa.Alloc:
+				once = chain[u.Parent()] && !Reachable(u, u)
+			}
+		}
+		if dispatches {
+			for _, what := range []string{"proxy", "limiter", "tracker"} {
+				c.Check(R, "~.ExtendedCopyGraph|shared-"+what, goCall.Pos(), once,
+					ifelse(once, "the "+what+" is a field of the one copy-state value created once outside the per-root function, whose method is dispatched per root", "the copy state whose method runs per root is not a single value created once: roots do not share the "+what))
+			}
+			return
+		}
+	}
 	if cg == nil {
 		c.LostAnchor(R, "call of the graph copy (function handing the traversal to syncutil.Go) reachable from the per-root function")
 		return
